@@ -325,6 +325,29 @@ func typeContains(t, el types.Type, depth int) bool {
 	return false
 }
 
+// typeHoldsArrayOf: an object of type t contains an array whose elements have type el (directly, or inside nested
+// structs / arrays). Go (without unsafe) creates slices only by slicing arrays and other slices, by make/append and by
+// conversion from a string: a []el can therefore point only into an array of el or into the backing object of a []el.
+func typeHoldsArrayOf(t, el types.Type, depth int) bool {
+	if depth > 6 {
+		return true
+	}
+	switch u := t.Underlying().(type) {
+	case *types.Struct:
+		for i := 0; i < u.NumFields(); i++ {
+			if typeHoldsArrayOf(u.Field(i).Type(), el, depth+1) {
+				return true
+			}
+		}
+	case *types.Array:
+		if types.Identical(u.Elem(), el) || typeKey(u.Elem()) == typeKey(el) {
+			return true
+		}
+		return typeHoldsArrayOf(u.Elem(), el, depth+1)
+	}
+	return false
+}
+
 var reByteRune = regexp.MustCompile(`\b(byte|rune)\b`)
 
 // typeKey: canonical name of a type (the aliases byte and rune are spelled uint8 and int32)
@@ -456,6 +479,8 @@ type tr struct {
 	stopped   bool
 	assertsSeen map[string]bool
 	callOrd   map[ssa.Instruction]int
+	storeOrd  map[ssa.Instruction]int // ordinal (source order) of a store among the stores to a field of the same name
+	ghostSetSeen map[string]bool
 	predDefs  map[string]string
 	qsort     map[string]string
 	opaquePreds map[string]bool          // predicates treated as uninterpreted over their footprint in this unit
@@ -629,6 +654,16 @@ func (t *tr) heapV0(name string) string {
 		fmt.Fprintf(&t.decls, "(assert (= %s false))\n", v)
 	}
 	t.heap0[name] = v
+	// the entry heap is closed under reachability: whatever a cell of an object that existed at entry refers to existed at
+	// entry as well
+	switch name {
+	case "H_loc":
+		fmt.Fprintf(&t.decls, "(assert (forall ((ty Int) (o Int) (c Int)) (! (=> (existed o) (existed (lref (select (select (select %s ty) o) c)))) :pattern ((select (select (select %s ty) o) c)))))\n", v, v)
+	case "H_slice":
+		fmt.Fprintf(&t.decls, "(assert (forall ((ty Int) (o Int) (c Int)) (! (=> (existed o) (existed (sref (select (select (select %s ty) o) c)))) :pattern ((select (select (select %s ty) o) c)))))\n", v, v)
+	case "H_iface":
+		fmt.Fprintf(&t.decls, "(assert (forall ((ty Int) (o Int) (c Int)) (! (=> (existed o) (and (existed (lref (iloc (select (select (select %s ty) o) c)))) (existed (sref (islice (select (select (select %s ty) o) c)))))) :pattern ((select (select (select %s ty) o) c)))))\n", v, v, v)
+	}
 	return v
 }
 
@@ -982,7 +1017,7 @@ func (t *tr) typeFacts(guard, term string, ty types.Type) {
 		t.assume(guard, fmt.Sprintf("(and (<= 0 (soff %s)) (<= 0 (slen %s)) (<= (slen %s) (scap %s)) (<= (scap %s) 72057594037927936) (=> (> (scap %s) 0) (> (sref %s) 0)) (>= (sref %s) 0) (=> (= (sref %s) 0) (= %s nullslice)))", term, term, term, term, term, term, term, term, term, term))
 		// typed memory: a []E can only point into an object that holds cells of type E
 		if !t.eng.arrayElem[types.TypeString(u.Elem(), nil)] {
-			t.assume(guard, fmt.Sprintf("(=> (> (scap %s) 0) (= (styp %s) %d))", term, term, t.eng.sliceTag(ty)))
+			t.assume(guard, fmt.Sprintf("(=> (or (> (scap %s) 0) (> (sref %s) 0)) (= (styp %s) %d))", term, term, term, t.eng.sliceTag(ty)))
 		} else {
 			t.assume(guard, fmt.Sprintf("(=> (> (scap %s) 0) (okslice_%d (styp %s)))", term, t.eng.elemIndex(u.Elem()), term))
 		}
@@ -1355,6 +1390,13 @@ func (t *tr) devirtualize(cc *ssa.CallCommon) (*ssa.Function, types.Type) {
 	if fn == nil || fn.Synthetic != "" {
 		return nil, nil
 	}
+	// a method that is verified to refine the interface method's contract is called through that contract: the caller
+	// reasons about the abstract view only (the representation invariant of the implementation is not its business)
+	if fs := t.eng.specs.Funcs[fn.String()]; fs != nil && len(fs.Refines) > 0 {
+		if t.eng.specs.Funcs["invoke:"+types.TypeString(cc.Value.Type(), nil)+"."+cc.Method.Name()] != nil {
+			return nil, nil
+		}
+	}
 	return fn, ct
 }
 
@@ -1632,6 +1674,16 @@ func (t *tr) loopMods(h *ssa.BasicBlock) *modSet {
 						m.addAll("H_" + ls)
 					}
 				}
+				// a ghost assignment attached to this store writes its ghost in the loop as well
+				if t.own != nil && t.parent == nil {
+					if fn := storedFieldName(x); fn != "" {
+						for _, gs := range t.own.GhostSets {
+							if gs.Store == fn && gs.N == t.storeOrd[ins] {
+								m.addAll("G_" + gs.Ghost)
+							}
+						}
+					}
+				}
 			case *ssa.MapUpdate:
 				mt := x.Map.Type().Underlying().(*types.Map)
 				ks, vs := leafSort(mt.Key()), leafSort(mt.Elem())
@@ -1644,6 +1696,16 @@ func (t *tr) loopMods(h *ssa.BasicBlock) *modSet {
 				m.addAll(t.deferFlagName(x))
 			case ssa.CallInstruction:
 				t.callMods(x, m)
+				if t.own != nil && t.parent == nil {
+					if _, isB := x.Common().Value.(*ssa.Builtin); !isB {
+						name := t.calleeName(x.Common())
+						for _, gs := range t.own.GhostSets {
+							if gs.Callee != "" && gs.N == t.callOrd[ins] && (name == gs.Callee || strings.HasSuffix(name, "."+gs.Callee) || strings.HasSuffix(name, ")."+gs.Callee)) {
+								m.addAll("G_" + gs.Ghost)
+							}
+						}
+					}
+				}
 			}
 		}
 	}
@@ -1986,6 +2048,83 @@ func (t *tr) computeCallOrdinals() {
 			t.callOrd[ins] = i + 1
 		}
 	}
+	// stores to struct fields, numbered per field name in source order (attachment points of ghostset clauses)
+	t.storeOrd = map[ssa.Instruction]int{}
+	sby := map[string][]ssa.Instruction{}
+	for _, b := range t.fn.Blocks {
+		for _, ins := range b.Instrs {
+			if st, ok := ins.(*ssa.Store); ok {
+				if fn := storedFieldName(st); fn != "" {
+					sby[fn] = append(sby[fn], ins)
+				}
+			}
+		}
+	}
+	for _, l := range sby {
+		sort.SliceStable(l, func(i, j int) bool { return l[i].Pos() < l[j].Pos() })
+		for i, ins := range l {
+			t.storeOrd[ins] = i + 1
+		}
+	}
+}
+
+// storedFieldName: the name of the struct field a store writes ("" when the target is not a field).
+func storedFieldName(st *ssa.Store) string {
+	fa, ok := st.Addr.(*ssa.FieldAddr)
+	if !ok {
+		return ""
+	}
+	pt, ok := fa.X.Type().Underlying().(*types.Pointer)
+	if !ok {
+		return ""
+	}
+	stt, ok := pt.Elem().Underlying().(*types.Struct)
+	if !ok || fa.Field >= stt.NumFields() {
+		return ""
+	}
+	return stt.Field(fa.Field).Name()
+}
+
+// applyGhostSet executes a ghostset clause at the current point (env: the source variables in scope there).
+func (t *tr) applyGhostSet(gs GhostSet, env *senv, R string, heaps map[string]string) {
+	g := t.eng.specs.Ghosts[gs.Ghost]
+	if g == nil || len(g.Keys) != len(gs.Keys) {
+		t.fatalf("ghostset %s (%s): ghost %s with %d key(s) expected", gs.Label, gs.Where, gs.Ghost, len(gs.Keys))
+		return
+	}
+	c := &evalCtx{t: t, env: env, cur: heaps, old: t.oldHeaps}
+	var keys []string
+	var val string
+	failed := false
+	func() {
+		defer func() {
+			if r := recover(); r != nil {
+				t.fatalf("ghostset %s (%s): %v", gs.Label, gs.Where, r)
+				failed = true
+			}
+		}()
+		for i, k := range gs.Keys {
+			keys = append(keys, c.ghostKey(g.Keys[i], c.eval(k)))
+		}
+		val = c.coerce(c.eval(gs.Val), g.Val)
+	}()
+	if failed {
+		return
+	}
+	h := "G_" + gs.Ghost
+	old := t.H(heaps, h)
+	var upd func(arr string, ks []string) string
+	upd = func(arr string, ks []string) string {
+		if len(ks) == 1 {
+			return fmt.Sprintf("(store %s %s %s)", arr, ks[0], val)
+		}
+		return fmt.Sprintf("(store %s %s %s)", arr, ks[0], upd(fmt.Sprintf("(select %s %s)", arr, ks[0]), ks[1:]))
+	}
+	t.setHeap(heaps, h, fmt.Sprintf("(ite %s %s %s)", R, upd(old, keys), old))
+	if t.ghostSetSeen == nil {
+		t.ghostSetSeen = map[string]bool{}
+	}
+	t.ghostSetSeen[gs.Label] = true
 }
 
 func (t *tr) calleeName(cc *ssa.CallCommon) string {
